@@ -1,9 +1,9 @@
 #!/bin/sh
 # usage: tools/seedimport.sh <Cxx> <name> <demo-filter> <check-props...>
-# imports /tmp/s2_<Cxx>_out as /verif/seeded/<name>, confirms it in the agent's worktree, runs the checks against it
+# imports /tmp/${ROUND:-s2}_<Cxx>_out as /verif/seeded/<name>, confirms it in the agent's worktree, runs the checks against it
 P="$1"; N="$2"; F="$3"; shift 3
 D=/verif/seeded/$N
-mkdir -p $D && cp /tmp/s2_${P}_out/patch.diff /tmp/s2_${P}_out/demo.diff /tmp/s2_${P}_out/notes.md $D/
-/verif/tools/seedconfirm.sh /tmp/s2_$P /tmp/s2_${P}_out "$F" > $D/confirm.txt 2>&1
+mkdir -p $D && cp /tmp/${ROUND:-s2}_${P}_out/patch.diff /tmp/${ROUND:-s2}_${P}_out/demo.diff /tmp/${ROUND:-s2}_${P}_out/notes.md $D/
+/verif/tools/seedconfirm.sh /tmp/${ROUND:-s2}_$P /tmp/${ROUND:-s2}_${P}_out "$F" > $D/confirm.txt 2>&1
 cat $D/confirm.txt | grep -E "^==|^test result"
 /verif/tools/seedtest.sh $N "$@" 2>&1 | tee $D/checks.txt | grep -E "^\[C|VIOLATION|UNDECIDED|failing input" | cut -c1-400
